@@ -1010,7 +1010,7 @@ _DEFAULTS = dict(min_units=1, max_units=4, max_depth=4, max_dies=40, versions=(2
                  partial_units=True, refs=True, share_abbrev=0.5, sibling=0.35, strp=0.5,
                  lone_null=0.15, odd_codes=0.3, cross_unit_chains=False, max_chain=4,
                  llvm_safe=True, v4_block_locations=False, extras=0.3, refused=0.0, cu_imports=0.0, dup_attrs=0.0, implicit_consts=0.0, const_blocks=0.0, empty_ranges=0.0,
-                 rich_ops=0.0, loclists=0.0, type_units=0.0, mixed_enums=0.0, vendor_forms=0.0, both_refs=0.1, dangling_refs=0.0, more_locations=0.0, cv_variants=0.0,
+                 rich_ops=0.0, loclists=0.0, type_units=0.0, mixed_enums=0.0, vendor_forms=0.0, both_refs=0.1, dangling_refs=0.0, more_locations=0.0, cv_variants=0.0, typed_enum_consts=0.0,
                  const_forms=("data1", "data2", "data4", "data8", "sdata", "udata"))
 
 _WORDS = ["foo", "bar", "baz", "qux", "main", "x", "y", "i", "T", "value", "next", "node",
@@ -1783,6 +1783,15 @@ class ForestGen:
         # with the top bit set are the ones whose reading depends on the inference
         for u in units:
             for d in list(u.root.walk()):
+                if d.tag == T["enumeration_type"] and not d.enum_mixed and d.has("type") and d.parent is not None \
+                        and self._chance(self.opts["typed_enum_consts"]):
+                    # an enumeration with an underlying type: the sign of a constant of it is that type's
+                    v = Die(T["variable"], u, d.parent)
+                    d.parent.children.append(v)
+                    self._add_name(v)
+                    v.add("type", "ref4", d)
+                    form = r.choice(["data1", "data2", "data4", "data8"])
+                    v.add("const_value", form, r.choice(_BOUNDARY[form][3:5]))
                 if d.enum_mixed and d.parent is not None:
                     for _ in range(r.randint(2, 3)):
                         v = Die(T["variable"], u, d.parent)
